@@ -166,6 +166,12 @@ func TestVerifHttpDriver(t *testing.T) {
 	}
 	log.SetOutput(io.Discard)
 	ctx := NewBrokerContext(log.New(io.Discard, "", 0))
+	// an allowed relay pattern, so that proxy polls with a narrower pattern take the rejection path
+	if err := ctx.InstallBridgeListProfile(strings.NewReader(
+		`{"displayName":"default", "webSocketAddress":"wss://snowflake.torproject.net/", "fingerprint":"2B280B23E1107BB62ABFC40DDCC8824814F80A72"}`+"\n"),
+		"snowflake.torproject.net$", "snowflake.torproject.net$"); err != nil {
+		t.Fatal(err)
+	}
 	go ctx.Broker()
 	srv := httptest.NewUnstartedServer(vhMux(ctx))
 	srv.Config.ErrorLog = log.New(io.Discard, "", 0)
